@@ -20,6 +20,16 @@ CHECKS = {
    text="Rewrites are contract actions of LwCircuit (transformation, heralds, input size preserved; no group after unpack; copies independent), checked by TLC with exact matrices; dumped and simulated programs with rewrites followed by further edits are replayed, and recorded rewrite-heavy histories are validated by LwCircuitTrace including the structure postconditions (no group, no non-adjacent beam splitter also inside groups, component count not grown).",
    note="Contract-style: a different compression algorithm is not an alarm. unpack_groups of a circuit with ancillas is bound to the recorded placement of the former ancillas. " + TB,
    technique="TLC on LwCircuit rewrite actions (RewriteProp, NoGroupAfterUnpack, CopyProp); replay; trace validation with recorded structure"),
+ "C10": dict(
+   level="model_checking", design="DESIGN.md section 5 C10",
+   text="LwParams (value / min / max, ParameterDict) is checked exhaustively by TLC over ALL interleavings of accepted and rejected updates (no depth bound; invariants InBounds, BoundsNumeric; action property RejectedChangesNothing) and its behaviours are replayed into real Parameter / ParameterDict objects with the full state compared after every call. LwCircuit carries parameter references in its ops and a pval variable: TLC checks LiveParams (every circuit's exact matrix is the one for the current values after ANY step, including Parameter.set, rewrites, additions, copies), FrozenProp and frames; dumped and simulated programs are replayed and U, get_all_params and compile errors compared.",
+   note="Parameter values come from a small id alphabet (0, 1/2, 1; multiples of pi/4; one invalid value per kind); 2 parameters x 2 keys in LwParams, 3 parameters in LwCircuit scopes. " + TB,
+   technique="TLC on LwParams (complete state graph) and LwCircuit with parameters; TLC behaviours replayed into the implementation"),
+ "C19": dict(
+   level="model_checking", design="DESIGN.md section 5 C19",
+   text="Display is a read-only LwCircuit action whose outcome (drawn / DisplayError) is decided by the specification from the type and the label count; TLC checks the frame condition on the exhaustive rung, and thousands of TLC-generated construction programs (every component kind, labelled and unlabelled parameters, loss, barriers, unitary blocks, plain and heralded groups nested to depth 2, heralds on any modes, swaps spanning ancillas) ending in one of the 16 valid or 4 invalid option combinations are replayed under the Agg backend: outcome as specified, circuit unchanged.",
+   note="Says nothing about what the picture looks like. Programs are sampled by tlc -simulate from scopes whose exhaustive state space is too large to enumerate; the exhaustive rung is small (3 modes, 2 calls + display). " + TB,
+   technique="TLC on LwCircuit Display action (frame + outcome table); simulate behaviours replayed into both display back-ends"),
  "C01": dict(
    level="model_checking", design="DESIGN.md section 5 C01",
    text="TLC exhaustively explores every construction program of LwCircuit within the stated bounds (all component kinds, every ordered mode pair, both conventions, boundary values, rejected calls) carrying the exact transfer matrix in Z[i,sqrt2][1/2]; unitarity, dimension and flattened-vs-compositional semantics are invariants in every state; every dumped program is then replayed into the real Circuit and U, U_full, n_modes are compared with TLC's exact values.",
